@@ -70,6 +70,7 @@ def scenario(run, rng, pv, idx):
     plugins = pv >= 385
 
     relayed = []        # packets written from inside an outgoing listener
+    callbacks = {}      # lid -> the callable registered under it
 
     def make_listener(lid, lst_name, types, ignore_for, relay=False):
         direction = 'out' if lst_name in ('early_out', 'out') else 'in'
@@ -87,6 +88,8 @@ def scenario(run, rng, pv, idx):
                 conn.write_packet(p2, force=True)
             if type(packet).__name__ in ignore_for:
                 raise IgnorePacket
+        if not relay:
+            callbacks[lid] = callback
         return callback
 
     conn = None
@@ -286,11 +289,35 @@ def scenario(run, rng, pv, idx):
                         kw['early'] = True
                     if outgoing:
                         kw['outgoing'] = True
-                    if rng.random() < 0.5:
+                    how = rng.random()
+                    if how < 0.4:
                         conn.register_packet_listener(cbk, *types, **kw)
-                    else:
+                    elif how < 0.8:
                         conn.listener(*types, **kw)(cbk)
+                    else:
+                        # one decorator object applied to two functions: both
+                        # are registered with its types and flags
+                        dec = conn.listener(*types, **kw)
+                        dec(cbk)
+                        config[lst_name].append((lid, types, ignore_for))
+                        lid_counter[0] += 1
+                        lid = lid_counter[0]
+                        cbk = make_listener(lid, lst_name, types, ignore_for)
+                        dec(cbk)
+                        run.count('decorators_applied_twice')
                     config[lst_name].append((lid, types, ignore_for))
+                    # the same callable registered again later in the same
+                    # list, for other types: an entry of its own at its own
+                    # place in the order
+                    if rng.random() < 0.15 and config[lst_name]:
+                        again = rng.choice(config[lst_name])
+                        types2 = tuple(rng.sample(pool, rng.choice((1, 2))))
+                        fn = callbacks.get(again[0])
+                        if fn is not None:
+                            conn.register_packet_listener(fn, *types2, **kw)
+                            config[lst_name].append((again[0], types2,
+                                                     again[2]))
+                            run.count('callables_registered_twice')
             if rng.random() < 0.35:
                 lst_name = rng.choice(('early_out', 'out'))
                 lid_counter[0] += 1
@@ -761,6 +788,8 @@ def run(run):
     run.require('dispatched.in', 30)
     run.require('scenarios_with_late_registration', 5)
     run.require('nested_writes_from_listeners', 5)
+    run.require('decorators_applied_twice', 5)
+    run.require('callables_registered_twice', 5)
     run.require('scenarios_kicked_while_writing', 5)
     run.require('scenarios_writing_one_object_repeatedly', 5)
     run.require('scenarios_where_an_early_listener_disconnects', 5)
